@@ -504,8 +504,8 @@ Definition t_call_send_message : name :=      (* "call:send_message" *)
   [99; 97; 108; 108; 58; 115; 101; 110; 100; 95; 109; 101; 115; 115; 97; 103; 101].
 Definition t_return : name := [114; 101; 116; 117; 114; 110].      (* "return" *)
 Definition t_invoke : name := [105; 110; 118; 111; 107; 101].      (* "invoke" *)
-Definition t_call_method_func : name :=       (* "call:method_func" *)
-  [99; 97; 108; 108; 58; 109; 101; 116; 104; 111; 100; 95; 102; 117; 110; 99].
+Definition t_call_method_func : name :=       (* "call:@1": passed to the 2nd name bound by the same site *)
+  [99; 97; 108; 108; 58; 64; 49].
 Definition t_assign_initial : name :=          (* "assign:self.initial_metadata" *)
   [97; 115; 115; 105; 103; 110; 58; 115; 101; 108; 102; 46; 105; 110; 105; 116; 105; 97; 108; 95;
    109; 101; 116; 97; 100; 97; 116; 97].
